@@ -211,10 +211,45 @@ func ruleDurationFormats(only ...string) func(p *Prog, l *Ledger, tier string) {
 					if ef == nil {
 						continue
 					}
+					// what the entry calls by name, and the functions it hands as arguments to the helpers it calls by name
+					// (a shared helper that receives the parser as a function value is called by both codecs: the call
+					// graph alone would make each codec reach the other's wrapper through it)
 					used := strset{}
-					for _, f := range p.Closure([]*ssa.Function{ef}) {
+					seenF := map[*ssa.Function]bool{}
+					work := []*ssa.Function{ef}
+					for len(work) > 0 {
+						f := work[len(work)-1]
+						work = work[:len(work)-1]
+						if f == nil || seenF[f] || len(f.Blocks) == 0 {
+							continue
+						}
+						seenF[f] = true
 						if side.all[FnName(f)] {
 							used.add(FnName(f))
+						}
+						for _, af := range f.AnonFuncs {
+							work = append(work, af)
+						}
+						for _, b := range f.Blocks {
+							for _, ins := range b.Instrs {
+								c, ok := ins.(ssa.CallInstruction)
+								if !ok {
+									continue
+								}
+								if sc := c.Common().StaticCallee(); sc != nil && fnPkg(sc) == p.LibSSA {
+									work = append(work, sc)
+								}
+								for _, a := range c.Common().Args {
+									switch fv := a.(type) {
+									case *ssa.Function:
+										work = append(work, fv)
+									case *ssa.MakeClosure:
+										if cf, ok := fv.Fn.(*ssa.Function); ok {
+											work = append(work, cf)
+										}
+									}
+								}
+							}
 						}
 					}
 					k2 := rule + "|" + tf.name + "|uses|" + side.entry
